@@ -19,6 +19,9 @@ CHECKS = {
  "C07": dict(cat="exploration", tech="invariant walk with frozen extension table over accepted inputs + metamorphic require-removal on generated valid scripts",
    text="Forward gating checked on every accepted enumerated/generated input by an independent walk; converse checked by removing each required extension (and subsets) from generated valid scripts.",
    note="Trusted: frozen extension table in vf/refsieve/table.py."),
+ "C18": dict(cat="exploration", tech="Hypothesis construction of (valid script, insertion point, offending token, layout, tail) with reference-confirmed class membership; oracle: exact (line, byte column, length) computed from the assembled text, metamorphic tail replacement; differential lower bound from the reference's first offending token",
+   text="Randomised exploration of error positions over ten offending-token classes, layouts with comments/multi-byte text/CRLF and tails; exact expected positions computed by the harness.",
+   note="Trusted: reference recogniser confirms the inserted token is the first offending token of its class."),
 }
 
 NOT_YET = {
